@@ -22,7 +22,9 @@ RULE = ('sampled (Hypothesis-decoded): rates in (-0.9, 10] incl. 0; cash '
         'trip; distinct by (function, arguments).')
 ASSUMPTIONS = [
     'non-zero rates have |r| >= 1e-4 (the closed forms cancel '
-    'catastrophically below, which is floating point, not the property)',
+    'catastrophically below, which is floating point, not the property) - '
+    'except a PMT/PV family at |r| of 2e-7..1e-6 judged against exact '
+    'rational arithmetic with relative tolerance 2e-7',
     '(1+r)^nper is kept below 1e250',
     'PMT with payments at period start, VDB, multiple-root flows and '
     'non-convergence on flows without a root are not generated',
@@ -62,6 +64,15 @@ def _build(d):
         return {'k': 'LIN', 'r': _rate(d), 'c': _flows(d, n),
                 'd': _flows(d, n), 'a': d.int(-5, 5), 'b': d.int(-5, 5),
                 'dates': _dates(d, n), 'x': bool(d.pick(2))}
+    if k in (2, 3) and d.pick(8) == 0:
+        # TINY non-zero rates: judged against exact rational arithmetic
+        # with a tolerance that covers the cancellation in (1+r)^n - 1
+        return {'k': 'PMTPV-tiny',
+                'r': d.choice([1e-6, 8e-7, -5e-7, 2e-7, -1e-6, 3e-7]),
+                'n': d.choice([12, 60, 120, 360, 1200, 3650]),
+                'pv': d.int(-1000000, 1000000) / 10.0,
+                'fv': 0 if d.pick(2) else d.int(-100000, 100000) / 10.0,
+                'type': d.pick(2), 'mode': 'call'}
     if k in (2, 3):
         r = _rate(d)
         nper = d.int(1, 480)
@@ -301,6 +312,8 @@ def judge(case):
         return _linear(case, res)
     if k == 'PMTPV':
         return _pmtpv(case, res)
+    if k == 'PMTPV-tiny':
+        return _pmtpv_tiny(case, res)
     if k == 'SLN':
         want = (case['cost'] - case['salvage']) / case['life']
         if case['mode'] == 'call':
@@ -384,6 +397,31 @@ def _pmtpv(case, res):
             _fail(res, 'roundtrip:PV(PMT)', pv, o4, [r, n, pv])
     else:
         _fail(res, 'PMT:nonnumeric', 'number', o3, [r, n, pv])
+    return res
+
+
+def _pmtpv_tiny(case, res):
+    from fractions import Fraction as Fr
+    r, n, pv, fv, ty = (case['r'], case['n'], case['pv'], case['fv'],
+                        case['type'])
+    res.nontrivial = True
+    res.labels = ('PMTPV', 'tiny-rate')
+    R_, PV_, FV_ = Fr(r), Fr(pv), Fr(fv)
+    g = (1 + R_) ** n
+    want = float(-(PV_ * g + FV_) * R_ / (g - 1))
+    o = lib.call_fn('PMT', r, n, pv, fv)
+    scale = (abs(pv) + abs(fv)) / n + abs(pv) * abs(r)
+    # the zero-rate formula is off by about r * n / 2 relatively (>= 1e-6 *
+    # scale for every drawn pair); float cancellation stays below 1e-9
+    if not relclose(o, want, rel=2e-7, scale=scale):
+        _fail(res, 'PMT:tiny-rate', want, o, ['PMT', r, n, pv, fv])
+        return res
+    p = want
+    wantpv = float(-(FV_ + Fr(p) * (1 + R_ * ty) * (g - 1) / R_) / g)
+    o2 = lib.call_fn('PV', r, n, p, fv, ty)
+    if not relclose(o2, wantpv, rel=2e-7, scale=abs(fv) + abs(p) * n):
+        _fail(res, 'PV:tiny-rate:type%d' % ty, wantpv, o2,
+              ['PV', r, n, p, fv, ty])
     return res
 
 
